@@ -102,6 +102,11 @@ func (m *MessageCertificateRequest) Unmarshal(data []byte) error { //nolint:cycl
 	if (offset + signatureHashAlgorithmsLength) > len(data) {
 		return dtlserrors.ErrBufferTooSmall
 	}
+	// Two bytes per entry: with an odd length the last entry would take its
+	// second byte from the certificate_authorities length that follows.
+	if signatureHashAlgorithmsLength%2 != 0 {
+		return dtlserrors.ErrLengthMismatch
+	}
 
 	for i := 0; i < signatureHashAlgorithmsLength; i += 2 {
 		if len(data) < (offset + i + 2) {
